@@ -37,6 +37,17 @@ def fmtSpecSys (cap : Nat) (objs : List Spec.SObj) : Option String :=
 
 structure St where
   sys : Option (Sys × Spec.SSys) := none
+  poisoned : Bool := false   -- objects with an indeterminate size: nothing may be executed
+
+/-- the bytes the harness writes into the raw storage before a default-initialisation -/
+def POISON : Nat := 0xAAAAAAAAAAAAAAAA
+
+def parseInit (l : Line) : Option Init :=
+  match l.str? "init" with
+  | some "value" => some .value
+  | some "default" => some (.dflt POISON)
+  | none => some .value
+  | _ => none
 
 def parseTy (l : Line) : Option Ty :=
   match l.str? "ty" with
@@ -99,10 +110,8 @@ def parseOp (l : Line) : Option Op :=
 /-- static facts of the type as the model sees them (after the repairs of branch fix-c01):
     width of the stored size, copy and move assignability -/
 def apiModel (ty : Ty) (cap : Nat) : String :=
-  let bits := match ty with
-    | .ipv => if cap = 0 then 0 else smallestBits cap
-    | _ => smallestBits cap
-  s!"bits={bits}"
+  let _ := ty
+  s!"bits={smallestBits cap}"
 
 def apiAssignModel (ty : Ty) : String :=
   let asg := match ty with | .ipv => "0" | _ => "1"
@@ -115,12 +124,18 @@ def step (st : St) (l : Line) : St × String :=
   let bad := (st, "bad-op\tbad-op")
   match l.op with
   | "new" =>
-    match parseTy l, l.nat? "cap", parseKind l with
-    | some ty, some cap, some kind =>
+    match parseTy l, l.nat? "cap", parseKind l, parseInit l with
+    | some ty, some cap, some kind, some ini =>
       let s := Sys.init ty cap kind
       let sp := Spec.SSys.init cap
-      ({ sys := some (s, sp) }, "new;" ++ fmtSys cap s.objs ++ "\t" ++ "new;" ++ fmtSys cap s.objs)
-    | _, _, _ => bad
+      let specStr := "new;" ++ fmtSys cap s.objs
+      let n0 := initSize ty cap ini
+      if n0 = 0 then ({ sys := some (s, sp) }, "new;" ++ fmtSys cap s.objs ++ "\t" ++ specStr)
+      else
+        -- indeterminate size: the four objects report it; nothing else can be observed
+        let o := s!"n={n0} e=0 f={fmtBool (n0 == cap)} d=? fb=?"
+        ({ sys := some (s, sp), poisoned := true }, "new;" ++ ";".intercalate [o, o, o, o] ++ "\t" ++ specStr)
+    | _, _, _, _ => bad
   | "api_bits" =>
     match parseTy l, l.nat? "cap", parseKind l with
     | some ty, some cap, some _ => (st, apiModel ty cap ++ "\t*")
@@ -130,9 +145,12 @@ def step (st : St) (l : Line) : St × String :=
     | some ty, some cap, some _ => (st, apiAssignModel ty ++ "\t" ++ apiSpec ty cap)
     | _, _, _ => bad
   | _ =>
+    if st.poisoned then (st, "invalid\tinvalid") else
     match st.sys, parseOp l with
     | some (s, sp), some op =>
       let k := (l.nat? "obj").getD 0
+      -- a line that violates a documented precondition executes nothing on any side
+      if !valid s k op then (st, "invalid\tinvalid") else
       let r := Spec.step sp k op
       let specStr := match r.2, fmtSpecSys sp.cap r.1.objs with
         | some o, some str => fmtOut o ++ ";" ++ str
